@@ -16,6 +16,12 @@ LIN = "transformers::linearizer::Linearizer::linearize"
 BOUNDS_TY = "transformers::bounds::Bounds"
 
 
+
+def S(R, rule, key, ok, where="", detail=""):
+    """a clause that recognises one spelling of the construction of the linear model: it can confirm, a miss is undecided.
+    The well-formedness itself is decided on every model the emulated compile step produces (COMPILE-EQUIV, C08 part)."""
+    return R.ob(rule, key, ok, where, detail, undecided=True)
+
 def check(F, R):
     d_sorted(F, R)
     d_usage(F, R)
@@ -28,38 +34,38 @@ def check(F, R):
 def d_sorted(F, R):
     f = F.fn(LIN)
     if f is None:
-        R.ob("D-SORTED", "anchor", False, "", "Linearizer::linearize not found")
+        S(R, "D-SORTED", "anchor", False, "", "Linearizer::linearize not found")
         return
     R.fn(LIN)
     lf = LocalFlow(f["body"])
     calls = [n for n in walk(f["body"]) if n.get("k") == "Call" and norm(n.get("callee") or "").endswith("LinearModel::new_from_parts")]
-    if not R.ob("D-SORTED", "constructor", len(calls) == 1 and len(calls[0]["args"]) == 6, F.loc(f), "expected one LinearModel::new_from_parts(objective, type, offset, rows, variables, domain) call"):
+    if not S(R, "D-SORTED", "constructor", len(calls) == 1 and len(calls[0]["args"]) == 6, F.loc(f), "expected one LinearModel::new_from_parts(objective, type, offset, rows, variables, domain) call"):
         return
     c = calls[0]
     v = strip(c["args"][4])
     ok_local = v.get("k") == "Path" and v.get("res") == "local"
-    R.ob("D-SORTED", "variables-is-local", ok_local, F.loc(f, c), "the variable list handed to the model must be the sorted local, got `%s`" % sexp(v))
+    S(R, "D-SORTED", "variables-is-local", ok_local, F.loc(f, c), "the variable list handed to the model must be the sorted local, got `%s`" % sexp(v))
     if not ok_local:
         return
     vid = v["id"]
     sorts = [n for n in walk(f["body"]) if n.get("k") == "MCall" and n["name"] in ("sort", "sort_unstable") and strip(n["recv"]).get("id") == vid]
     muts = [n["name"] for n in walk(f["body"]) if n.get("k") == "MCall" and strip(n["recv"]).get("id") == vid and n["name"] in ("push", "insert", "retain", "dedup", "reverse", "swap", "truncate", "remove", "swap_remove", "extend", "append", "drain", "clear", "sort_by", "sort_by_key", "rotate_left", "rotate_right")]
-    R.ob("D-SORTED", "sorted", len(sorts) == 1, F.loc(f, sorts[0]) if sorts else F.loc(f), "the variable list must be sorted exactly once with the natural order (found %d sort calls)" % len(sorts))
-    R.ob("D-SORTED", "not-mutated", not muts, F.loc(f), "the sorted variable list is mutated afterwards: %s" % muts)
+    S(R, "D-SORTED", "sorted", len(sorts) == 1, F.loc(f, sorts[0]) if sorts else F.loc(f), "the variable list must be sorted exactly once with the natural order (found %d sort calls)" % len(sorts))
+    S(R, "D-SORTED", "not-mutated", not muts, F.loc(f), "the sorted variable list is mutated afterwards: %s" % muts)
     defs = [sexp(d) for d in lf.defs.get(vid, [])]
-    R.ob("D-SORTED", "from-used-variables", any("used_variables()" in d for d in defs), F.loc(f), "variable list defined by %s, expected the used-variable filter" % defs)
+    S(R, "D-SORTED", "from-used-variables", any("used_variables()" in d for d in defs), F.loc(f), "variable list defined by %s, expected the used-variable filter" % defs)
     # MIR: the sort dominates the construction
     body = F.mir.get(LIN)
     if body is not None:
         cfg = mirlib.Cfg(body)
         sb = [bi for bi, t in cfg.calls() if mirlib.callee(t).endswith("::sort") or mirlib.callee(t).endswith("slice::<impl [T]>::sort")]
         cb = [bi for bi, t in cfg.calls() if mirlib.callee(t).endswith("LinearModel::new_from_parts")]
-        R.ob("D-SORTED", "sort-dominates-construction", bool(sb) and bool(cb) and all(any(cfg.dominates(s, c_) for s in sb) for c_ in cb), F.loc(f), "the sort must run on every path to the construction of the model (sort blocks %s, construction blocks %s)" % (sb, cb))
+        S(R, "D-SORTED", "sort-dominates-construction", bool(sb) and bool(cb) and all(any(cfg.dominates(s, c_) for s in sb) for c_ in cb), F.loc(f), "the sort must run on every path to the construction of the model (sort blocks %s, construction blocks %s)" % (sb, cb))
     # domain filtered by membership in the same list; indexes enumerate the same list
     d = strip(c["args"][5])
     ddefs = [dd for dd in lf.defs.get(d.get("id"), [])] if d.get("k") == "Path" else []
     okd = any(any(x.get("k") == "MCall" and x["name"] == "contains" and strip(x["recv"]).get("id") == vid for x in walk(dd)) and any(x.get("k") == "MCall" and x["name"] == "filter" for x in walk(dd)) for dd in ddefs)
-    R.ob("D-SORTED", "domain-filtered-by-variables", okd, F.loc(f), "the model's domain must be the linearizer domain filtered by membership in the variable list: %s" % [sexp(x)[:120] for x in ddefs])
+    S(R, "D-SORTED", "domain-filtered-by-variables", okd, F.loc(f), "the model's domain must be the linearizer domain filtered by membership in the variable list: %s" % [sexp(x)[:120] for x in ddefs])
     idx_ok = False
     for i, dl in lf.defs.items():
         for dd in dl:
@@ -72,13 +78,13 @@ def d_sorted(F, R):
                     tup = strip(cc["body"])
                     if len(b) == 2 and tup.get("k") == "Tup" and len(tup["es"]) == 2:
                         idx_ok = free_locals(tup["es"][0]) == {b[1][0]} and free_locals(tup["es"][1]) == {b[0][0]}
-    R.ob("D-SORTED", "indexes-enumerate-variables", idx_ok, F.loc(f), "column indexes must be the positions of the sorted variable list (name -> enumerate index)")
+    S(R, "D-SORTED", "indexes-enumerate-variables", idx_ok, F.loc(f), "column indexes must be the positions of the sorted variable list (name -> enumerate index)")
     # duplicate free: used_variables draws keys of the domain map
     g = F.fn("transformers::linearizer::Linearizer::used_variables")
     if g is not None:
         R.fn(g["path"])
         t = sexp(g["body"])
-        R.ob("D-SORTED", "used_variables:keys-of-domain", "self.domain.iter()" in t and ".filter(" in t and "is_used()" in t and "push" not in t, F.loc(g), "used_variables must list the keys of the domain map (unique) that are marked used: %s" % t[:160])
+        S(R, "D-SORTED", "used_variables:keys-of-domain", "self.domain.iter()" in t and ".filter(" in t and "is_used()" in t and "push" not in t, F.loc(g), "used_variables must list the keys of the domain map (unique) that are marked used: %s" % t[:160])
 
 
 def d_usage(F, R):
@@ -87,7 +93,7 @@ def d_usage(F, R):
     body = F.mir.get(p)
     f = F.fn(p)
     if body is None or f is None:
-        R.ob("D-USAGE", "anchor", False, "", "PreExp::into_exp not found")
+        S(R, "D-USAGE", "anchor", False, "", "PreExp::into_exp not found")
         return
     R.fn(p)
     cfg = mirlib.Cfg(body)
@@ -98,10 +104,10 @@ def d_usage(F, R):
             rv = s["rv"]
             if rv.get("k") == "Aggregate" and rv.get("ak") == "Adt" and rv.get("adt", "").endswith("model::Exp") and rv.get("variant") == "Variable":
                 sites.append((b["i"], s.get("l")))
-    R.ob("D-USAGE", "sites", len(sites) == 2, F.loc(f), "expected 2 constructions of Exp::Variable in into_exp, found %d" % len(sites))
+    S(R, "D-USAGE", "sites", len(sites) == 2, F.loc(f), "expected 2 constructions of Exp::Variable in into_exp, found %d" % len(sites))
     for bi, line in sites:
         dom = [i for i in inc if cfg.dominates(i, bi)]
-        R.ob("D-USAGE", "into_exp:Exp::Variable@%d" % sites.index((bi, line)), bool(dom), "%s:%s" % (F.loc(f).rsplit(":", 1)[0], line),
+        S(R, "D-USAGE", "into_exp:Exp::Variable@%d" % sites.index((bi, line)), bool(dom), "%s:%s" % (F.loc(f).rsplit(":", 1)[0], line),
              "an Exp::Variable is produced without a dominating increment_domain_variable_usage: the variable is filtered out of the linear model and its coefficient silently dropped")
     # HIR: same name
     lf = LocalFlow(f["body"])
@@ -118,14 +124,14 @@ def d_usage(F, R):
             incs = [x for x in walk(arm["body"])] if arm else []
             incs = [x for x in incs if x.get("k") == "MCall" and x["name"] == "increment_domain_variable_usage"]
             same = any(lf.roots(x["args"][0]) & arg_roots for x in incs)
-            R.ob("D-USAGE", "into_exp:same-name:%s" % sexp(n["args"][0]), same, F.loc(f, n), "the usage increment must be on the very name that becomes the Exp::Variable")
+            S(R, "D-USAGE", "into_exp:same-name:%s" % sexp(n["args"][0]), same, F.loc(f, n), "the usage increment must be on the very name that becomes the Exp::Variable")
     # auxiliary variables are marked used when declared
     g = F.fn("transformers::linearizer::Linearizer::declare_variable")
     if g is not None:
         R.fn(g["path"])
         names = [x["name"] for x in walk(g["body"]) if x.get("k") == "MCall"]
         ok = "increment_usage" in names and "insert" in names and names.index("increment_usage") < len(names)
-        R.ob("D-USAGE", "declare_variable:marks-used", ok, F.loc(g), "auxiliary variables must be marked used when declared (calls: %s)" % names)
+        S(R, "D-USAGE", "declare_variable:marks-used", ok, F.loc(g), "auxiliary variables must be marked used when declared (calls: %s)" % names)
     h = None
     for p2, ff in F.fns.items():
         if p2.endswith("builder::model::Model::into_model") or p2 == "builder::model::Model::into_model":
@@ -133,7 +139,7 @@ def d_usage(F, R):
     if h is not None and "body" in h:
         R.fn(h["path"])
         t = sexp(h["body"])
-        R.ob("D-USAGE", "builder:into_model-marks-all", "increment_usage" in t or "increment_domain_variable_usage" in t, F.loc(h), "the builder must mark every declared variable used")
+        S(R, "D-USAGE", "builder:into_model-marks-all", "increment_usage" in t or "increment_domain_variable_usage" in t, F.loc(h), "the builder must mark every declared variable used")
 
 
 def _bounds_field_uses(F, node):
@@ -228,7 +234,7 @@ def d_finite(F, R):
             key = "%s:%s" % (f["path"], re.sub(r"\s+", "", sexp(n["args"][0])))
             R.ob("D-FINITE", key, not missing and bool(gating & govern or not gating), F.loc(f, n),
                  "big-M constant `%s` uses bound end-points %s; the MissingFiniteBounds guard of this lowering tests %s finite%s" % (sexp(n["args"][0]), sorted(used), sorted(tested), "" if not missing else " -- NOT tested: %s (an infinite constant would be emitted)" % sorted(missing)))
-    R.ob("D-FINITE", "sites", n_sites == 4, "packages/rooc/src/transformers/linearizer.rs", "expected 4 big-M constants built from bounds (2 abs, max, min), found %d" % n_sites)
+    R.ob("D-FINITE", "sites", n_sites == 4, "packages/rooc/src/transformers/linearizer.rs", "expected 4 big-M constants built from bounds (2 abs, max, min), found %d" % n_sites, undecided=True)
 
 
 def _finite_tests(F, f, node):
@@ -279,10 +285,10 @@ def finite_sanitise(F, R):
                         if y.get("k") == "MCall" and y["name"] == "is_finite" and ("current_rhs" in sexp(y) or "current_vars" in sexp(y) or "values()" in sexp(y) or "rhs" in sexp(y)):
                             tests.append((g["path"], sexp(y)))
     rows = [t for t in tests if t[0].endswith("emit_constraint") or "MidLinearConstraint" in t[0] or "finite" in t[0].lower()]
-    R.ob("FINITE-SANITISE", "rows", bool(rows), "packages/rooc/src/transformers/linearizer.rs",
+    S(R, "FINITE-SANITISE", "rows", bool(rows), "packages/rooc/src/transformers/linearizer.rs",
          "no finiteness test between Exp::Number / LinearizationContext and the LinearConstraint rows: `Infinity * y <= 3` compiles to a row with coefficient inf, `x <= Infinity` to a right-hand side inf (tests found: %s)" % rows)
     obj = [t for t in tests if t[0] == LIN or "finite" in t[0].lower()]
-    R.ob("FINITE-SANITISE", "objective", bool(obj), "packages/rooc/src/transformers/linearizer.rs",
+    S(R, "FINITE-SANITISE", "objective", bool(obj), "packages/rooc/src/transformers/linearizer.rs",
          "no finiteness test on the linearised objective: `min x + Infinity - Infinity` compiles to offset NaN (tests found: %s)" % obj)
 
 
@@ -307,10 +313,10 @@ def n_names(F, R):
         incr = any(x.get("k") == "AssignOp" and x["op"] == "+=" for x in walk(lp["body"]))
         ok = {"source_names", "assigned_names"} <= tested and incr
         detail = "candidate `%s` tested against %s; counter incremented: %s" % (mac[0]["snippet"], sorted(tested), incr)
-    R.ob("N-NAMES", "row-dedup", ok, F.loc(f), "a de-duplicated row name must be tested against both the user-written names and the names already assigned: " + detail)
+    S(R, "N-NAMES", "row-dedup", ok, F.loc(f), "a de-duplicated row name must be tested against both the user-written names and the names already assigned: " + detail)
     # first use keeps its name: the `assigned_names.insert(name)` success path continues
     t = sexp(f["body"])
-    R.ob("N-NAMES", "first-use-kept", "assigned_names.insert(constraint.name.clone())" in t and "continue" in t, F.loc(f), "the first row carrying a user-written name must keep it")
+    S(R, "N-NAMES", "first-use-kept", "assigned_names.insert(constraint.name.clone())" in t and "continue" in t, F.loc(f), "the first row carrying a user-written name must keep it")
     # auxiliary declaration rejects existing names
     g = F.fn("transformers::linearizer::Linearizer::declare_variable")
     if g is not None:
@@ -319,7 +325,7 @@ def n_names(F, R):
             if x.get("k") == "If" and first is None:
                 first = x
         ok = first is not None and "contains_key" in sexp(first["cond"]) and "VarAlreadyDeclared" in sexp(first["then"])
-        R.ob("N-NAMES", "aux-declare-checks-existing", ok, F.loc(g), "declare_variable must reject a name that is already in the domain before inserting it")
+        S(R, "N-NAMES", "aux-declare-checks-existing", ok, F.loc(g), "declare_variable must reject a name that is already in the domain before inserting it")
     # every auxiliary name template starts with `$` and its counter is bumped next to it
     n = 0
     for h in F.fn_list:
@@ -335,7 +341,7 @@ def n_names(F, R):
                 if not used_as_decl:
                     continue
                 n += 1
-                R.ob("N-NAMES", "aux-template:%s:%s" % (h["path"].rsplit("::", 1)[-1], m.group(1)), m.group(1).startswith("$"), F.loc(h, x), "auxiliary name template %r must start with `$` (a prefix reserved for compiler names)" % m.group(1))
+                S(R, "N-NAMES", "aux-template:%s:%s" % (h["path"].rsplit("::", 1)[-1], m.group(1)), m.group(1).startswith("$"), F.loc(h, x), "auxiliary name template %r must start with `$` (a prefix reserved for compiler names)" % m.group(1))
     R.count("N-NAMES.templates", n)
     # counters: every `let id = ctx.X_count` is followed by `ctx.X_count += 1`
     cn = 0
@@ -347,7 +353,7 @@ def n_names(F, R):
             fld = strip(r["init"])["name"]
             bumped = any(x.get("k") == "AssignOp" and x["op"] == "+=" and strip(x["lhs"]).get("k") == "Field" and strip(x["lhs"])["name"] == fld and sexp(x["rhs"]) == "1" for x in walk(h["body"]))
             cn += 1
-            R.ob("N-NAMES", "counter:%s:%s" % (h["path"].rsplit("::", 1)[-1], fld), bumped, F.loc(h, r), "counter %s is read for a fresh name but never incremented in %s: two auxiliaries would share a name" % (fld, h["path"]))
+            S(R, "N-NAMES", "counter:%s:%s" % (h["path"].rsplit("::", 1)[-1], fld), bumped, F.loc(h, r), "counter %s is read for a fresh name but never incremented in %s: two auxiliaries would share a name" % (fld, h["path"]))
     R.count("N-NAMES.counters", cn)
 
 
@@ -364,10 +370,10 @@ def w_coeff(F, R):
                 for fl in x["fields"]:
                     if fl["name"] == "current_vars" and "IndexMap::new()" not in sexp(fl["e"]) and "new()" not in sexp(fl["e"]):
                         writers.append(f["path"] + " (struct literal)")
-    R.ob("W-COEFF", "writers-of-current_vars", set(writers) == {"transformers::linearizer::LinearizationContext::add_var"}, "packages/rooc/src/transformers/linearizer.rs",
+    S(R, "W-COEFF", "writers-of-current_vars", set(writers) == {"transformers::linearizer::LinearizationContext::add_var"}, "packages/rooc/src/transformers/linearizer.rs",
          "only add_var may add entries to a linearised expression (it merges coefficients of an existing name): writers %s" % sorted(set(writers)))
     g = F.fn("transformers::linearizer::LinearizationContext::add_var")
     if g is not None:
         R.fn(g["path"])
         t = sexp(g["body"])
-        R.ob("W-COEFF", "add_var-merges", "contains_key" in t and "+=" in t or "entry(" in t, F.loc(g), "add_var must merge into an existing coefficient: %s" % t[:160])
+        S(R, "W-COEFF", "add_var-merges", "contains_key" in t and "+=" in t or "entry(" in t, F.loc(g), "add_var must merge into an existing coefficient: %s" % t[:160])
